@@ -394,6 +394,21 @@ def gen_tree_calls(rng, n, tier):
     out = [dict(k="emptytree", q=[0.0, 1.0, 0.0, 1.0, 0.0, 1.0]), dict(k="emptytree", q=[-1.0, -1.0, 0.0, 0.0, 2.0, 3.0])]
     for _ in range(n):
         out.append(dict(k="aabbtree", case=c05.gen_case(rng, "quick"), budget=120.0))
+    # the public query API with raw return types: disjoint / overlapping / nested / empty trees, every insertion mode
+    lat = lambda: sorted([rng.choice([-2.0, -1.0, 0.0, 0.5, 1.0, 2.0, 3.0]) for _ in range(2)])
+    for _ in range(max(6, n)):
+        def boxes(k, shift):
+            bs = []
+            for _ in range(k):
+                b = []
+                for _ in range(3):
+                    lo, hi = lat()
+                    b += [lo + shift, hi + shift + (0.0 if rng.random() < 0.3 else 0.5)]
+                bs.append(b)
+            return bs
+        k1, k2 = rng.choice([0, 1, 2, 5]), rng.choice([0, 1, 3])
+        out.append(dict(k="treeapi", boxes1=boxes(k1, 0.0), boxes2=boxes(k2, rng.choice([0.0, 0.0, 100.0])),
+                        q=boxes(1, rng.choice([0.0, 100.0]))[0], mode=rng.choice(["none", "sort", "shuffle"])))
     # explicit empty-first-tree and empty-second-tree histories
     box = [0.0, 1.0, 0.0, 1.0, 0.0, 1.0]
     one = [dict(boxes=[box], data=[7], mode="single")]
@@ -413,14 +428,18 @@ def gen_foreign_calls(rng, tier, notes):
         pairs, bodies, units = c15.gen_cases(rng, "quick")
         rng.shuffle(pairs)
         rng.shuffle(units)
-        for c in pairs[: 30 * n] + units[: 12 * n] + bodies[: 2 * n]:
-            out.append(dict(k="worker", module="c15", case=c, fam="hydro-c15", budget=600.0))
+        sep = [dict(b, use_aabb_trees=True) for b in bodies if "separated" in b.get("cls", "")][:1]
+        for c in pairs[: 30 * n] + units[: 12 * n] + bodies[: 2 * n] + sep:
+            out.append(dict(k="worker", module="c15", case=c, fam="hydro-c15", budget=600.0, **(dict(rel=1e-2) if c.get("kind") == "bodies" else {})))
     except Exception as e:  # noqa
         notes.append(f"family hydro-c15 unavailable: {type(e).__name__}: {str(e)[:120]}")
     try:
         from . import c16
         for k in range(2 * n):
-            out.append(dict(k="worker", module="c16", case=c16.gen_case(rng, k, "quick"), fam="hydro-c16", budget=600.0))
+            # rel 1e-2 on the net wrenches: single tetrahedron pairs flip under 1-ulp differences (decision boundaries of a
+            # pipeline with thousands of intersection tests; seen 0.4 % of the net force); the strict per-contact comparison
+            # is made on the c15 body cases, which report the pair indices
+            out.append(dict(k="worker", module="c16", case=c16.gen_case(rng, k, "quick"), fam="hydro-c16", budget=600.0, rel=1e-2))
     except Exception as e:  # noqa
         notes.append(f"family hydro-c16 unavailable: {type(e).__name__}: {str(e)[:120]}")
     try:
@@ -593,8 +612,29 @@ def normalise(c, a, b):
         ca = {f"{x['i']}-{x['j']}": x for x in ja.get("contacts", [])}
         cb = {f"{x['i']}-{x['j']}": x for x in jb.get("contacts", [])}
         common = sorted(set(ca) & set(cb))
-        ja["contacts"] = {k: ca[k] for k in common}
-        jb["contacts"] = {k: cb[k] for k in common}
+        # per-contact rows present in BOTH modes: area and force strictly (1e-6), unless the contact is a sliver; rows
+        # present in one mode only must carry less than 1 % of the net force
+        tot = max(float(np.linalg.norm(np.array(j.get("sum_force", [0, 0, 0]), float))) for j in (ja, jb))
+        bad = []
+        for k in common:
+            xa, xb = ca[k], cb[k]
+            fa, fb = np.array(xa["force"], float), np.array(xb["force"], float)
+            if max(xa["area"], xb["area"]) > 1e-9 and (
+                    abs(xa["area"] - xb["area"]) > 1e-6 * max(xa["area"], xb["area"]) or
+                    float(np.linalg.norm(fa - fb)) > 1e-6 * max(float(np.linalg.norm(fa)), float(np.linalg.norm(fb))) + 1e-15):
+                if float(np.linalg.norm(np.array(xa["plane"][:3]) - np.array(xb["plane"][:3]))) <= 1e-6:     # not a noise plane
+                    bad.append(f"contact {k}: area {xa['area']!r}/{xb['area']!r} force {fa.tolist()}/{fb.tolist()}")
+        pa_, pb_ = {tuple(x) for x in ja["reported_pairs"]}, {tuple(x) for x in jb["reported_pairs"]}
+        for k in sorted(set(ca) ^ set(cb)):
+            x = ca.get(k) or cb.get(k)
+            if tuple(int(v) for v in k.split("-")) in (pa_ & pb_):
+                continue       # reported in both modes, only thinned differently
+            if tot > 0 and float(np.linalg.norm(np.array(x["force"], float))) > 1e-2 * tot:
+                bad.append(f"contact {k} exists in one mode only and carries {float(np.linalg.norm(np.array(x['force'], float))) / tot:.2%} of the net force")
+        ja["per_contact_check"] = bad
+        jb["per_contact_check"] = []
+        ja["contacts"] = {}
+        jb["contacts"] = {}
         return {"ok": {"json": ja}}, {"ok": {"json": jb}}, note
     return a, b, None
 
@@ -1018,6 +1058,10 @@ def run(tier, seed, replay=None):
             a, b, nnote = normalise(c, a, b)
             if nnote:
                 T.hit(nnote)
+            pcc = a["ok"].get("json", {}).get("per_contact_check") if isinstance(a["ok"], dict) and isinstance(a["ok"].get("json"), dict) else None
+            if pcc:
+                what = f"{fam} bodies: " + "; ".join(pcc[:2])
+                a["ok"]["json"]["per_contact_check"] = []
             cmp(a["ok"], b["ok"], rel * L + 1e-12 * L, rel, "", diffs, discrete)
             if diffs and c["k"] == "call" and c["fn"].startswith("support_function_"):
                 # two different but equally extreme points (a tie decided by a 1-ulp difference of the local direction)
@@ -1041,7 +1085,9 @@ def run(tier, seed, replay=None):
                 discrete.append(("mutated", a.get("mutated"), b.get("mutated")))
             fam_cmp[fam] = fam_cmp.get(fam, 0) + 1
             distinct.add(cm.canon_hash({k: v for k, v in c.items() if k not in ("budget",)}))
-            if diffs:
+            if what:
+                pass
+            elif diffs:
                 p, x, y = diffs[0]
                 what = f"{fam}.{c.get('fn', c.get('module', ''))}: value{p} = {x!r} compiled vs {y!r} interpreted (+{len(diffs) - 1} more; rel tol {rel:g})"
             elif discrete:
